@@ -226,10 +226,11 @@ def gen_cmd(rng, ctr, name, depth, prof):
         if rng.random() < 0.2:
             s["order"] = rng.choice([0, 1, 1, 7])
         c["subs"].append(s)
-        if rng.random() < prof.get("p_case_twin", 0.12) and "order" not in s:
-            # a sibling whose name differs only in letter case and shares the display order: a case-folding
-            # sort key would make the two collide and one of them vanish from "Commands:"
+        if rng.random() < prof.get("p_case_twin", 0.12):
+            # a sibling whose name differs only in letter case and shares the (explicit) display order: a
+            # case-folding sort key would make the two collide and one of them vanish from "Commands:"
             t = gen_cmd(rng, ctr, sn.upper(), 0, prof)
+            s["order"] = t["order"] = s.get("order", rng.choice([0, 1, 7]))
             c["subs"].append(t)
     return c
 
